@@ -45,9 +45,8 @@ Definition max_int : Z := 9223372036854775807.
 (** strconv.Atoi: optional sign, at least one digit, only digits, range of int (64 bit) *)
 Definition atoi (l : cbytes) : option Z :=
   let '(neg, ds) := match l with
-                    | 45%N :: r => (true, r)
-                    | 43%N :: r => (false, r)
-                    | _ => (false, l)
+                    | c :: r => if N.eqb c 45 then (true, r) else if N.eqb c 43 then (false, r) else (false, l)
+                    | [] => (false, l)
                     end in
   match ds with
   | [] => None
